@@ -20,7 +20,7 @@ for p in props:
 files = arg("--files"); files = files.split(",") if files else sorted(file_props)
 rng = random.Random(seed)
 MUTS = [
-    (r"(?<![<>=!-])<=(?!=)", "<"), (r"(?<![<>=!-])>=(?!=)", ">"), (r"(?<![<>=!&|-])<(?![<=])", "<="), (r"(?<![<>=!&|-])(?<!-)>(?![>=])", ">="),
+    (r" <= ", " < "), (r" >= ", " > "), (r" < (?![A-Z_a-z:]*>)", " <= "), (r"(?<!-) > ", " >= "),
     (r"==", "!="), (r"!=", "=="), (r"&&", "||"), (r"\|\|", "&&"),
     (r"\+ 1\b", "+ 0"), (r"- 1\b", "- 0"), (r"\btrue\b", "false"), (r"\bfalse\b", "true"),
     (r"\bcontinue;", "{}"), (r"\.saturating_sub\(1\)", ".saturating_sub(0)"), (r"\bpush_front\b", "push_back"), (r"\bpush_back\b", "push_front"),
